@@ -267,8 +267,9 @@ func (x *Exec) generate1(walk, keep func(name string) bool) []*FuncReport {
 		if !want(name) {
 			continue
 		}
-		if fn.Parent() != nil && fn.Parent().Synthetic == "" {
-			continue // closures: loop invariants only, used while inlining (the literals of package-level variables are functions of their own)
+		if fn.Parent() != nil && fn.Parent().Synthetic == "" && len(con.Ensures)+len(con.Panics)+len(con.Exits) == 0 {
+			continue // closures: loop invariants only, used while inlining (the literals of package-level variables, and literals
+			// whose contract states a postcondition, are functions of their own)
 		}
 		if con.Trusted {
 			if keep(name) {
